@@ -51,7 +51,7 @@ def run(ctx, rep) -> None:
         if not r.ok:
             rep.violation(f'Spawning design check {c}: {r.violated} {r.errors[:1]}', files={'tlc.out': r.out[-100000:]})
     sneg = {}
-    for c, inv in [('neg_stuck', 'StuckInTime'), ('neg_tight', 'TooTight'), ('f5', 'NoF5'), ('f18', 'NoF18')]:
+    for c, inv in [('neg_stuck', 'StuckInTime'), ('neg_tight', 'TooTight'), ('f5', 'NoF5'), ('f18', 'NoF18'), ('f33', 'NoF33')]:
         r = tlc.run('MC_Spawning', f'MC_Spawning_{c}.cfg', timeout=900)
         if r.ok or ('invariant', inv) not in r.violated:
             raise MachineryFailure(f'configuration MC_Spawning_{c} should violate {inv}: {r.violated}')
@@ -76,7 +76,7 @@ def run(ctx, rep) -> None:
         v = verdicts[t['id']]
         if v == 'ok':
             continue
-        rep.classified(v if v in ('F5', 'F18') else '', f'{t["id"]}: {v}', payload=t)
+        rep.classified(v if v in ('F5', 'F18', 'F33') else '', f'{t["id"]}: {v}', payload=t)
     # step conformance: the same executions must be behaviours of Spawning.tla (every spawn, flag, cancellation, finalizer write, sleep
     # and touch at the instant the specification makes it), its invariants true in every state, the rest-state clauses at `quiet`
     sv = D.judge_spawning(traces, rep)
